@@ -19,11 +19,38 @@
 (***************************************************************************)
 EXTENDS Integers, FiniteSets, TLC
 
-CONSTANTS Clients, MaxOps, Dev
-VARIABLES conn, state, q, x,      \* ledger: connected clients, true state, requests, transactions
-          reg, rstate, rq, rx,    \* registries
-          ghosts,                 \* registry rows that belong to no client at all
-          nops
+\* (the @type comments are for Apalache, which proves the invariants inductive for histories of any length: StatsApa.tla)
+CONSTANTS
+  \* @type: Set(Str);
+  Clients,
+  \* @type: Int;
+  MaxOps,
+  \* @type: Set(Str);
+  Dev
+VARIABLES
+  \* ledger: connected clients, true state, requests, transactions
+  \* @type: Set(Str);
+  conn,
+  \* @type: Str -> Str;
+  state,
+  \* @type: Str -> Int;
+  q,
+  \* @type: Str -> Int;
+  x,
+  \* registries
+  \* @type: Set(Str);
+  reg,
+  \* @type: Str -> Str;
+  rstate,
+  \* @type: Str -> Int;
+  rq,
+  \* @type: Str -> Int;
+  rx,
+  \* registry rows that belong to no client at all
+  \* @type: Int;
+  ghosts,
+  \* @type: Int;
+  nops
 vars == <<conn, state, q, x, reg, rstate, rq, rx, ghosts, nops>>
 Z == [c \in Clients |-> 0]
 Init == /\ conn = {} /\ state = [c \in Clients |-> "none"] /\ q = Z /\ x = Z
